@@ -54,11 +54,13 @@ Fixpoint nodupN (l : list N) : bool :=
   match l with [] => true | x :: t => negb (memN x t) && nodupN t end.
 Fixpoint count_str (x : string) (l : list string) : N :=
   match l with [] => 0 | y :: t => (if String.eqb x y then 1 else 0) + count_str x t end.
+Fixpoint distinct_str (l acc : list string) : list string :=
+  match l with [] => acc | x :: t => distinct_str t (if existsb (String.eqb x) acc then acc else x :: acc) end.
 (* equal as multisets *)
 Definition multiset_eq (a b : list string) : bool :=
-  (N.of_nat (length a) =? N.of_nat (length b)) && forallb (fun x => count_str x a =? count_str x b) a.
+  (N.of_nat (length a) =? N.of_nat (length b)) && forallb (fun x => count_str x a =? count_str x b) (distinct_str a []).
 (* a is a sub-multiset of b *)
-Definition multiset_le (a b : list string) : bool := forallb (fun x => count_str x a <=? count_str x b) a.
+Definition multiset_le (a b : list string) : bool := forallb (fun x => count_str x a <=? count_str x b) (distinct_str a []).
 
 Fixpoint insert_by_fst (x : N * N) (l : list (N * N)) : list (N * N) :=
   match l with
@@ -171,9 +173,9 @@ Definition model_view (c : case_t) :=
    which come before values produced in the run.  Generation numbers are renumbered densely but never
    swapped."   The produced data of a run is the previous data of the peer's next run, so consecutive
    outputs are compared run by run as (previous data, produced data). *)
-Definition same_order (g1 g2 : N -> N) (a b : N) : bool :=
-  Bool.eqb (g1 a <? g1 b) (g2 a <? g2 b) && Bool.eqb (g1 a =? g1 b) (g2 a =? g2 b).
-Definition all_pairs (f : N -> N -> bool) (l1 l2 : list N) : bool :=
+Definition same_order (a b : N * N) : bool :=
+  Bool.eqb (fst a <? fst b) (snd a <? snd b) && Bool.eqb (fst a =? fst b) (snd a =? snd b).
+Definition all_pairs {A B} (f : A -> B -> bool) (l1 : list A) (l2 : list B) : bool :=
   forallb (fun a => forallb (fun b => f a b) l2) l1.
 Definition getN (l : list (N * N)) (v : N) : N := match assocN v l with Some g => g | None => 0 end.
 Definition hasN (l : list (N * N)) (v : N) : bool := match assocN v l with Some _ => true | None => false end.
@@ -183,18 +185,21 @@ Definition c12_oracle (c : case_t) : bool :=
   | OErr _ => true                                   (* a failed run hands back the previous data *)
   | OData vals =>
       let ids := map o_id vals in
-      let go := getN (map (fun x => (o_id x, o_gen x)) vals) in
-      let seen := filter (hasN (c_prev c)) ids in                                       (* in both outputs *)
-      let learnt := filter (fun v => negb (hasN (c_prev c) v) && hasN (c_cur c) v) ids in   (* from current data *)
-      let made := filter (fun v => negb (hasN (c_prev c) v) && negb (hasN (c_cur c) v)) ids in
+      (* (generation in the earlier data, generation in the produced data) of the values in both outputs;
+         the same for the values taken from the current data; produced generations of the rest *)
+      let seen := concat (map (fun x => match assocN (o_id x) (c_prev c) with Some g => [(g, o_gen x)] | None => [] end) vals) in
+      let learnt := concat (map (fun x => match assocN (o_id x) (c_prev c), assocN (o_id x) (c_cur c) with
+                                          | None, Some g => [(g, o_gen x)] | _, _ => [] end) vals) in
+      let made := concat (map (fun x => match assocN (o_id x) (c_prev c), assocN (o_id x) (c_cur c) with
+                                        | None, None => [o_gen x] | _, _ => [] end) vals) in
       nodupN ids &&
       (* never swapped: order and equality of generations are kept, among the values already seen and
          among those taken from the current data *)
-      all_pairs (same_order (getN (c_prev c)) go) seen seen &&
-      all_pairs (same_order (getN (c_cur c)) go) learnt learnt &&
+      all_pairs same_order seen seen &&
+      all_pairs same_order learnt learnt &&
       (* previous before current before new *)
-      all_pairs (fun a b => go a <? go b) seen (learnt ++ made) &&
-      all_pairs (fun a b => go a <? go b) learnt made &&
+      all_pairs (fun a b => snd a <? b) seen (map snd learnt ++ made) &&
+      all_pairs (fun a b => snd a <? b) learnt made &&
       (* dense from 0: every number below the largest one is used *)
       let gens := map o_gen vals in
       let n := N.of_nat (length vals) in
